@@ -485,4 +485,734 @@ theorem rotr_eq (w x s : Nat) (hw : 1 ≤ w) (hx : x < 2^w) : rotr w x s = .ok (
         simp [e2, e3, e4]
   · simp [hi]
 
+/-! ## used_digits -/
+
+theorem wrap_inRange (T : IntTy) (hb : 1 ≤ T.bits) (v : Int) (h : T.InRange v) : T.wrap v = v := by
+  unfold IntTy.InRange IntTy.lowest IntTy.max at h
+  unfold IntTy.wrap
+  by_cases hs : T.signed = true
+  · rw [if_pos hs] at h; rw [if_pos hs] at h; rw [if_pos hs]
+    have h2 := two_pow_bits T.bits hb
+    have h3 := pow_pos' (T.bits-1)
+    rw [h2, Int.emod_eq_of_lt (by omega) (by omega)]; omega
+  · rw [if_neg hs] at h; rw [if_neg hs] at h; rw [if_neg hs]
+    exact Int.emod_eq_of_lt (by omega) (by omega)
+
+theorem gt_zero (T : IntTy) (n : Nat) (h : (n:Int) ≤ T.max) : cCmp .gt (T, (n:Int)) (i32, 0) = decide (0 < n) := by
+  have hb := promote_bits_ge T
+  simp only [cCmp, usualArith_i32]
+  rw [wrap_nat_fits (promote T) (by omega) n (le_max_promote T _ h)]
+  have : (promote T).wrap 0 = 0 := wrap_nat_fits (promote T) (by omega) 0 (by have := max_promote_ge T; simp; omega)
+  rw [this]
+  simp
+
+theorem div_two (T : IntTy) (n : Nat) (h : (n:Int) ≤ T.max) :
+    cBin .div (T, (n:Int)) (i32, 2) = .ok (promote T, ((n / 2 : Nat) : Int)) := by
+  have hb := promote_bits_ge T
+  have hm := max_promote_ge T
+  have hn := le_max_promote T _ h
+  have h2 : (promote T).wrap 2 = 2 := wrap_nat_fits (promote T) (by omega) 2 (by simp; omega)
+  have hq : ((n:Int)).tdiv 2 = ((n / 2 : Nat) : Int) := by
+    rw [Int.tdiv_eq_ediv_of_nonneg (by omega)]; simp
+  have hq2 : ((n / 2 : Nat) : Int) ≤ (promote T).max := by omega
+  simp only [cBin, usualArith_i32]
+  rw [wrap_nat_fits (promote T) (by omega) n hn, h2, hq]
+  have hlow : (promote T).lowest ≤ 0 := by
+    unfold IntTy.lowest; split
+    · have := pow_pos' ((promote T).bits - 1); omega
+    · omega
+  simp only [arith]
+  by_cases hs : (promote T).signed = true
+  · simp only [hs, if_true]
+    have hin : (promote T).InRange ((n / 2 : Nat) : Int) := ⟨by omega, hq2⟩
+    rw [if_pos hin]
+    simp
+  · simp only [hs]
+    simp
+    exact wrap_nat_fits (promote T) (by omega) _ hq2
+
+theorem usedDigitsU_eq : ∀ (fuel : Nat) (T : IntTy) (n : Nat), (n:Int) ≤ T.max → bitLength n < fuel →
+    usedDigitsU T fuel (n:Int) 2 = .ok ((bitLength n : Nat) : Int)
+  | 0, _, _, _, hf => by omega
+  | fuel+1, T, n, h, hf => by
+    unfold usedDigitsU
+    rw [gt_zero T n h]
+    by_cases h0 : n = 0
+    · subst h0; simp [bitLength_zero]
+    · have hbl := bitLength_pos n h0
+      have hpos : 0 < n := by omega
+      simp only [hpos, decide_true, if_true]
+      rw [div_two T n h]
+      simp only [Res.bind_ok]
+      rw [usedDigitsU_eq fuel (promote T) (n/2) (by have := le_max_promote T _ h; omega) (by omega)]
+      simp only [Res.bind_ok, Res.pure_eq, hbl]
+      congr 1
+      omega
+theorem inRange_promote (T : IntTy) (v : Int) (h : T.InRange v) : (promote T).InRange v := by
+  unfold promote; split
+  · rename_i hlt
+    unfold IntTy.InRange IntTy.lowest IntTy.max at *
+    have h1 : (2:Int)^T.bits ≤ 2^31 := by
+      have := Nat.pow_le_pow_right (show 0 < 2 by decide) (show T.bits ≤ 31 by omega)
+      exact_mod_cast this
+    have h2 : (2:Int)^(T.bits-1) ≤ 2^31 := by
+      have := Nat.pow_le_pow_right (show 0 < 2 by decide) (show T.bits - 1 ≤ 31 by omega)
+      exact_mod_cast this
+    have h3 := pow_pos' T.bits
+    have h4 := pow_pos' (T.bits-1)
+    have e : i32.signed = true := rfl
+    have e2 : i32.bits = 32 := rfl
+    simp only [e, e2, if_true]
+    by_cases hs : T.signed = true
+    · simp only [hs, if_true] at h; omega
+    · simp only [hs] at h; simp at h; omega
+  · exact h
+
+theorem lt_zero (T : IntTy) (v : Int) (h : T.InRange v) : cCmp .lt (T, v) (i32, 0) = decide (v < 0) := by
+  have hb := promote_bits_ge T
+  simp only [cCmp, usualArith_i32]
+  rw [wrap_inRange (promote T) (by omega) v (inRange_promote T v h)]
+  have : (promote T).wrap 0 = 0 := wrap_nat_fits (promote T) (by omega) 0 (by have := max_promote_ge T; simp; omega)
+  rw [this]
+
+theorem promote_signed (T : IntTy) (h : T.signed = true) : (promote T).signed = true := by
+  unfold promote; split
+  · rfl
+  · exact h
+
+/-- `Integer{-1} - value` for a negative value -/
+theorem neg_one_sub (T : IntTy) (v : Int) (hs : T.signed = true) (h : T.InRange v) (hneg : v < 0) :
+    cBin .sub (T, -1) (T, v) = .ok (promote T, -1 - v) := by
+  have hb := promote_bits_ge T
+  have hP := inRange_promote T v h
+  have hPs := promote_signed T hs
+  have hm1 : (promote T).InRange (-1) := by
+    unfold IntTy.InRange IntTy.lowest IntTy.max
+    have := pow_pos' ((promote T).bits - 1)
+    simp only [hPs, if_true]; omega
+  simp only [cBin, usualArith_self]
+  rw [wrap_inRange (promote T) (by omega) v hP, wrap_inRange (promote T) (by omega) (-1) hm1]
+  unfold IntTy.InRange IntTy.lowest IntTy.max at hP
+  simp only [hPs, if_true] at hP
+  simp only [arith, hPs, if_true, IntTy.InRange, IntTy.lowest, IntTy.max]
+  rw [if_pos (by omega)]
+
+theorem max_lt_two_pow_bits (T : IntTy) (n : Nat) (h : (n:Int) ≤ T.max) : n < 2^T.bits := by
+  have h1 : T.max < 2^T.bits := by
+    unfold IntTy.max; split
+    · have : (2:Int)^(T.bits-1) ≤ 2^T.bits := by
+        have := Nat.pow_le_pow_right (show 0 < 2 by decide) (show T.bits - 1 ≤ T.bits by omega)
+        exact_mod_cast this
+      omega
+    · omega
+  have : (n:Int) < ((2^T.bits : Nat) : Int) := by push_cast; omega
+  exact_mod_cast this
+
+theorem usedDigits_eq (T : IntTy) (v : Int) (h : T.InRange v) :
+    usedDigits T v 2 = .ok ((valueBits v : Nat) : Int) := by
+  unfold usedDigits valueBits
+  have hmax : ∀ n : Nat, (n:Int) ≤ T.max → usedDigitsU T (T.bits+1) (n:Int) 2 = .ok ((bitLength n : Nat) : Int) := by
+    intro n hn
+    exact usedDigitsU_eq _ T n hn (by have := bitLength_le n T.bits (max_lt_two_pow_bits T n hn); omega)
+  by_cases hs : T.signed = true
+  · simp only [hs, if_true]
+    rw [lt_zero T v h]
+    by_cases hneg : v < 0
+    · simp only [hneg, decide_true, if_true]
+      rw [neg_one_sub T v hs h hneg]
+      simp only [Res.bind_ok]
+      have hr := h
+      unfold IntTy.InRange IntTy.lowest IntTy.max at hr
+      simp only [hs, if_true] at hr
+      have e : (-1 - v) = (((-v - 1).toNat : Nat) : Int) := by omega
+      rw [e]
+      have hfit : (((-v - 1).toNat : Nat) : Int) ≤ T.max := by
+        unfold IntTy.max; simp only [hs, if_true]; omega
+      exact usedDigitsU_eq _ (promote T) _ (le_max_promote T _ hfit)
+        (by have := bitLength_le _ T.bits (max_lt_two_pow_bits T _ hfit); omega)
+    · simp only [hneg, decide_false]
+      have e : v = ((v.toNat : Nat) : Int) := by omega
+      have hfit : ((v.toNat : Nat) : Int) ≤ T.max := by rw [← e]; exact h.2
+      simp only [Bool.false_eq_true, if_false]
+      rw [e]; simp only [Int.toNat_natCast]
+      exact hmax _ hfit
+  · simp only [hs, Bool.false_eq_true, if_false]
+    have hr := h
+    unfold IntTy.InRange IntTy.lowest at hr
+    simp only [hs, Bool.false_eq_true, if_false] at hr
+    have hneg : ¬ (v < 0) := by omega
+    simp only [hneg, if_false]
+    have e : v = ((v.toNat : Nat) : Int) := by omega
+    have hfit : ((v.toNat : Nat) : Int) ≤ T.max := by rw [← e]; exact h.2
+    rw [e]; simp only [Int.toNat_natCast]
+    exact hmax _ hfit
+
+/-! ## log2p1, floor2, ceil2, leading_bits, trailing_bits -/
+
+theorem log2p1_eq (c : Cfg) (w x : Nat) (hx : x < 2^w) : log2p1 c w x = .ok ((bitLength x : Nat) : Int) := by
+  unfold log2p1
+  rw [countlZero_eq c w x hx]
+  simp only [Res.bind_ok, Res.pure_eq]
+  congr 1; omega
+
+/-- `static_cast<T>(T{1} << k)` for `k < w` is `2^k` -/
+theorem one_shl_cast (w k : Nat) (hk : k < w) (ki : Int) (hki : ki = (k:Int)) :
+    castV (uT w) (cBin .shl (uT w, 1) (i32, ki)) = .ok ((2^k : Nat) : Int) := by
+  subst hki
+  have hP : w ≤ (promote (uT w)).bits := promote_bits_ge_self (uT w)
+  rw [cBin_shl (uT w) 1 i32 k (by omega)]
+  simp only [castV_ok]
+  rw [wrap_uT, wrap_emod_le (promote (uT w)) w hP]
+  have e : ((1:Int) * 2^k) = ((2^k : Nat) : Int) := by push_cast; omega
+  rw [e, natCast_emod_two_pow, Nat.mod_eq_of_lt (Nat.pow_lt_pow_right (by decide) hk)]
+
+theorem bitLength_sub_one (x : Nat) (h : x ≠ 0) : bitLength x - 1 = Nat.log2 x := by
+  unfold bitLength; rw [if_neg h]; omega
+
+theorem floor2_eq (c : Cfg) (w x : Nat) (hx : x < 2^w) : floor2 c w x = .ok (Spec.Bits.floor2 x) := by
+  unfold floor2 Spec.Bits.floor2
+  by_cases h0 : x = 0
+  · simp [h0]
+  · simp only [ne_eq, h0, not_false_eq_true, if_true, if_false]
+    rw [countlZero_eq c w x hx]
+    simp only [Res.bind_ok]
+    have hle := bitLength_le x w hx
+    have hpos : 1 ≤ bitLength x := by rw [bitLength_pos x h0]; omega
+    rw [one_shl_cast w (bitLength x - 1) (by omega) _ (by omega)]
+    simp only [Res.bind_ok, Res.pure_eq, Int.toNat_natCast, bitLength_sub_one x h0]
+
+/-- `T(x - T{1})` for `x ≥ 1` -/
+theorem sub_one_cast (w x : Nat) (hx : x < 2^w) (h0 : x ≠ 0) :
+    castV (uT w) (cBin .sub (uT w, (x:Int)) (uT w, 1)) = .ok ((x - 1 : Nat) : Int) := by
+  have hb := promote_bits_ge (uT w)
+  have hm := max_promote_ge (uT w)
+  have hfit := le_max_promote (uT w) _ (le_uT_max w x hx)
+  have h1 : (promote (uT w)).wrap 1 = 1 := wrap_nat_fits (promote (uT w)) (by omega) 1 (by simp; omega)
+  have e : ((x:Int) - 1) = ((x - 1 : Nat) : Int) := by omega
+  have hfit2 : ((x - 1 : Nat) : Int) ≤ (promote (uT w)).max := by omega
+  simp only [cBin, usualArith_self]
+  rw [wrap_nat_fits (promote (uT w)) (by omega) x hfit, h1, e]
+  simp only [arith]
+  have hlow : (promote (uT w)).lowest ≤ 0 := by
+    unfold IntTy.lowest; split
+    · have := pow_pos' ((promote (uT w)).bits - 1); omega
+    · omega
+  by_cases hs : (promote (uT w)).signed = true
+  · simp only [hs, if_true]
+    have hin : (promote (uT w)).InRange ((x - 1 : Nat) : Int) := ⟨by omega, hfit2⟩
+    rw [if_pos hin]
+    simp only [castV_ok]
+    rw [wrap_uT_nat w (x-1) (by omega)]
+  · simp only [hs]
+    simp only [Bool.false_eq_true, if_false, castV_ok]
+    rw [wrap_nat_fits (promote (uT w)) (by omega) _ hfit2, wrap_uT_nat w (x-1) (by omega)]
+
+theorem ceil2_eq (c : Cfg) (w x : Nat) (hw : 1 ≤ w) (hx : x ≤ 2^(w-1)) :
+    (ceil2 c w x).map some = .ok (Spec.Bits.ceil2 w x) := by
+  have h2 : 2^w = 2 * 2^(w-1) := by
+    rw [← Nat.pow_succ']; congr 1; omega
+  have hp : 0 < 2^(w-1) := Nat.pow_pos (by decide)
+  have hxw : x < 2^w := by omega
+  unfold ceil2 Spec.Bits.ceil2
+  by_cases h0 : x = 0
+  · simp [h0, Res.map]
+  · simp only [ne_eq, h0, not_false_eq_true, if_true, if_false, hx]
+    rw [sub_one_cast w x hxw h0]
+    simp only [Res.bind_ok, Int.toNat_natCast]
+    rw [countlZero_eq c w (x-1) (by omega)]
+    simp only [Res.bind_ok]
+    have hle := bitLength_le (x-1) (w-1) (by omega)
+    rw [one_shl_cast w (bitLength (x-1)) (by omega) _ (by omega)]
+    simp only [Res.bind_ok, Res.pure_eq, Int.toNat_natCast, Res.map]
+
+theorem leadingBits_eq (T : IntTy) (v : Int) (h : T.InRange v) :
+    leadingBits T v = .ok (Spec.Bits.leadingBits T.bits T.signed v) := by
+  unfold leadingBits Spec.Bits.leadingBits
+  rw [usedDigits_eq T v h]
+  simp only [Res.bind_ok, Res.pure_eq, IntTy.digits, Spec.Bits.digits]
+
+theorem pattern_lt (w : Nat) (v : Int) : pattern w v < 2^w := by
+  unfold pattern
+  have h := Int.emod_lt_of_pos v (pow_pos' w)
+  have h0 := Int.emod_nonneg v (Int.ne_of_gt (pow_pos' w))
+  have : ((v % 2^w).toNat : Int) < ((2^w : Nat) : Int) := by
+    rw [Int.toNat_of_nonneg h0]; push_cast; exact h
+  exact_mod_cast this
+
+theorem trailingBits_eq (c : Cfg) (T : IntTy) (v : Int) :
+    trailingBits c T v = .ok ((Spec.Bits.trailingBits T.bits v : Nat) : Int) := by
+  unfold trailingBits Spec.Bits.trailingBits
+  by_cases h0 : v = 0
+  · simp [h0]
+  · simp only [ne_eq, h0, not_false_eq_true, if_true, if_false]
+    rw [wrap_uT]
+    exact countrZero_eq c T.bits _ (pattern_lt T.bits v)
+
+/-! ## countr_one -/
+
+theorem cBin_shr_one (T : IntTy) (x : Nat) :
+    cBin .shr (T, (x:Int)) (i32, 1) = .ok (promote T, ((x / 2 : Nat) : Int)) := by
+  have hp := promote_bits_ge T
+  rw [cBin_shr' T x i32 1 (by decide) (by omega)]
+  simp
+
+theorem countrOne_zero_width (x : Nat) : Spec.Bits.countrOne 0 x = 0 := rfl
+
+theorem countrOneGen_eq : ∀ (n fuel : Nat) (T : IntTy) (x : Nat), (x:Int) ≤ T.max → x < 2^n → n < fuel →
+    countrOneGen T fuel x = .ok ((Spec.Bits.countrOne n x : Nat) : Int)
+  | _, 0, _, _, _, _, hf => by omega
+  | 0, fuel+1, T, x, h, hx, _ => by
+    have h0 : x = 0 := by simp at hx; omega
+    subst h0
+    unfold countrOneGen
+    rw [band_one T T 0 h (Or.inl rfl)]
+    simp [countrOne_zero_width]
+  | n+1, fuel+1, T, x, h, hx, hf => by
+    unfold countrOneGen
+    rw [band_one T T x h (Or.inl rfl)]
+    simp only [Res.bind_ok, countrOne_succ]
+    by_cases hodd : x % 2 = 1
+    · simp only [hodd]
+      rw [cBin_shr_one T x]
+      simp only [Res.bind_ok, Int.toNat_natCast]
+      have hx2 : x / 2 < 2^n := by rw [Nat.pow_succ] at hx; omega
+      rw [countrOneGen_eq n fuel (promote T) (x/2) (by have := le_max_promote T _ h; omega) hx2 (by omega)]
+      simp
+    · have he : x % 2 = 0 := by omega
+      simp [he]
+
+theorem cNot_uT (w x : Nat) (hw : 32 ≤ w) (hx : x < 2^w) :
+    cNot (uT w, (x:Int)) = .ok (uT w, ((2^w - 1 - x : Nat) : Int)) := by
+  have hM : ((2^w : Nat) : Int) = 2^w := by push_cast; rfl
+  have hxi : (x:Int) < 2^w := by rw [← hM]; exact_mod_cast hx
+  simp only [cNot, promote_uT_ge hw]
+  rw [wrap_uT_nat w x hx, wrap_uT]
+  congr 2
+  have e : -(x:Int) - 1 = (2^w - 1 - x) + (-1) * 2^w := by omega
+  rw [e, Int.add_mul_emod_self_right, Int.emod_eq_of_lt (by omega) (by omega)]
+  omega
+
+theorem run_congr (p q : Nat → Bool) : ∀ (n i : Nat), (∀ j, i ≤ j → j < i + n → p j = q j) → run p i n = run q i n
+  | 0, _, _ => rfl
+  | n+1, i, h => by
+    simp only [run]
+    rw [h i (Nat.le_refl _) (by omega), run_congr p q n (i+1) (fun j h1 h2 => h j (by omega) (by omega))]
+
+theorem countrZero_compl (w x : Nat) (hx : x < 2^w) :
+    Spec.Bits.countrZero w (2^w - 1 - x) = Spec.Bits.countrOne w x := by
+  unfold Spec.Bits.countrZero Spec.Bits.countrOne
+  apply run_congr
+  intro j _ hj
+  have e : 2^w - 1 - x = 2^w - (x + 1) := by omega
+  rw [e, Nat.testBit_two_pow_sub_succ hx]
+  have : j < w := by omega
+  simp [this]
+
+theorem countrOne_eq (c : Cfg) (w x : Nat) (hx : x < 2^w) :
+    countrOne c w x = .ok ((Spec.Bits.countrOne w x : Nat) : Int) := by
+  unfold countrOne
+  by_cases h32 : w = 32
+  · subst h32
+    simp only [if_true]
+    rw [cNot_uT 32 x (by omega) hx]
+    simp only [Res.bind_ok, Int.toNat_natCast]
+    rw [countrZero_eq c 32 _ (by omega), countrZero_compl 32 x hx]
+  · simp only [h32, if_false]
+    exact countrOneGen_eq w (w+1) (uT w) x (le_uT_max w x hx) hx (by omega)
+
+/-! ## countl_one, countl_rsb, countl_rb, countr_used -/
+
+theorem top_bit (x k : Nat) (h1 : 2^k ≤ x) (h2 : x < 2^(k+1)) : x.testBit k = true := by
+  cases hb : x.testBit k with
+  | true => rfl
+  | false =>
+    have : x < 2^k := by
+      apply Nat.lt_pow_two_of_testBit
+      intro i hi
+      by_cases hik : i = k
+      · subst hik; exact hb
+      · exact testBit_high x (k+1) i h2 (by omega)
+    omega
+
+theorem and_two_pow_eq_zero_iff (x n : Nat) : x &&& 2^n = 0 ↔ x.testBit n = false := by
+  constructor
+  · intro h
+    have := congrArg (fun z => Nat.testBit z n) h
+    simpa [Nat.testBit_and, Nat.testBit_two_pow] using this
+  · intro h
+    apply Nat.eq_of_testBit_eq
+    intro i
+    rw [Nat.testBit_and, Nat.testBit_two_pow, Nat.zero_testBit]
+    by_cases hi : n = i
+    · subst hi; simp [h]
+    · simp [hi]
+
+theorem pow_pred_le_max (w : Nat) (hw : 1 ≤ w) : ((2^(w-1) : Nat) : Int) ≤ (promote (uT w)).max := by
+  apply le_max_promote
+  have h2 : 2^w = 2 * 2^(w-1) := by rw [← Nat.pow_succ']; congr 1; omega
+  have hp : 0 < 2^(w-1) := Nat.pow_pos (by decide)
+  exact le_uT_max w _ (by omega)
+
+/-- `x & (T{1} << (digits - 1))`: non-zero exactly when the top bit is set -/
+theorem top_mask (w x : Nat) (hw : 1 ≤ w) (hx : x < 2^w) :
+    (cBin .shl (uT w, 1) (i32, (w:Int) - 1) >>= fun m => cBin .band (uT w, (x:Int)) m)
+      = .ok (promote (uT w), ((x &&& 2^(w-1) : Nat) : Int)) := by
+  have hb := promote_bits_ge (uT w)
+  have hP : w ≤ (promote (uT w)).bits := promote_bits_ge_self (uT w)
+  have e : ((w:Int) - 1) = ((w - 1 : Nat) : Int) := by omega
+  rw [e, cBin_shl (uT w) 1 i32 (w-1) (by omega)]
+  simp only [Res.bind_ok]
+  have e2 : ((1:Int) * 2^(w-1)) = ((2^(w-1) : Nat) : Int) := by push_cast; omega
+  rw [e2, wrap_nat_fits (promote (uT w)) (by omega) _ (pow_pred_le_max w hw)]
+  exact cBin_band_nat (uT w) (promote (uT w)) (promote (uT w)) (usualArith_promote _) (by omega) x (2^(w-1))
+    (le_max_promote _ _ (le_uT_max w x hx)) (pow_pred_le_max w hw)
+
+/-- `static_cast<T>(x << 1)` -/
+theorem shl1_cast (w x : Nat) :
+    castV (uT w) (cBin .shl (uT w, (x:Int)) (i32, 1)) = .ok ((2 * x % 2^w : Nat) : Int) := by
+  have hb := promote_bits_ge (uT w)
+  have hP : w ≤ (promote (uT w)).bits := promote_bits_ge_self (uT w)
+  rw [cBin_shl' (uT w) x i32 1 (by decide) (by omega)]
+  simp only [castV_ok]
+  rw [wrap_uT, wrap_emod_le (promote (uT w)) w hP]
+  have e : ((x:Int) * 2 ^ (1:Int).toNat) = ((2 * x : Nat) : Int) := by
+    have : (1:Int).toNat = 1 := rfl
+    rw [this]; push_cast; omega
+  rw [e, natCast_emod_two_pow]
+
+theorem bitLength_eq_of_range (y w : Nat) (hw : 1 ≤ w) (h1 : 2^(w-1) ≤ y) (h2 : y < 2^w) : bitLength y = w := by
+  have hle := bitLength_le y w h2
+  have hlt := lt_two_pow_bitLength y
+  by_cases h : bitLength y ≤ w - 1
+  · have := Nat.pow_le_pow_right (show 0 < 2 by decide) h
+    omega
+  · omega
+
+theorem countlOneGen_eq (w : Nat) (hw : 1 ≤ w) : ∀ (fuel x : Nat), x < 2^w → w - bitLength (2^w - 1 - x) < fuel →
+    countlOneGen w fuel x = .ok (((w - bitLength (2^w - 1 - x) : Nat)) : Int)
+  | 0, _, _, hf => by omega
+  | fuel+1, x, hx, hf => by
+    have h2 : 2^w = 2 * 2^(w-1) := by rw [← Nat.pow_succ']; congr 1; omega
+    have hp : 0 < 2^(w-1) := Nat.pow_pos (by decide)
+    unfold countlOneGen
+    have htm := top_mask w x hw hx
+    simp only [bind, Res.bind] at htm
+    simp only [bind, Res.bind]
+    cases hm : cBin .shl (uT w, 1) (i32, (w:Int) - 1) with
+    | ok m =>
+      rw [hm] at htm
+      simp only at htm
+      simp only
+      rw [htm]
+      simp only
+      by_cases htop : 2^(w-1) ≤ x
+      · have hbit : x.testBit (w-1) = true := top_bit x (w-1) htop (by rw [show w - 1 + 1 = w by omega]; exact hx)
+        have hne : ((x &&& 2^(w-1) : Nat) : Int) ≠ 0 := by
+          intro h
+          have : x &&& 2^(w-1) = 0 := by exact_mod_cast h
+          rw [and_two_pow_eq_zero_iff] at this
+          simp [hbit] at this
+        simp only [ne_eq, hne, not_false_eq_true, if_true]
+        have hs := shl1_cast w x
+        cases hc : castV (uT w) (cBin .shl (uT w, (x:Int)) (i32, 1)) with
+        | ok y =>
+          rw [hc] at hs
+          have hy : y = ((2 * x % 2^w : Nat) : Int) := by injection hs
+          subst hy
+          simp only [Int.toNat_natCast]
+          have hx' : 2 * x % 2^w = 2 * x - 2^w := by
+            rw [Nat.mod_eq_sub_mod (by omega), Nat.mod_eq_of_lt (by omega)]
+          have hcomp : 2^w - 1 - (2 * x % 2^w) = 2 * (2^w - 1 - x) + 1 := by omega
+          have hbl : bitLength (2 * (2^w - 1 - x) + 1) = bitLength (2^w - 1 - x) + 1 := by
+            rw [bitLength_pos _ (by omega)]
+            congr 2; omega
+          have hyl : bitLength (2^w - 1 - x) ≤ w - 1 := bitLength_le _ (w-1) (by omega)
+          have ih := countlOneGen_eq w hw fuel (2 * x % 2^w) (Nat.mod_lt _ (by omega)) (by rw [hcomp, hbl]; omega)
+          rw [ih, hcomp, hbl]
+          simp only [pure]
+          congr 1; omega
+        | _ => rw [hc] at hs; cases hs
+      · have hbit : x.testBit (w-1) = false := Nat.testBit_lt_two_pow (by omega)
+        have he : x &&& 2^(w-1) = 0 := (and_two_pow_eq_zero_iff x (w-1)).2 hbit
+        have hbl : bitLength (2^w - 1 - x) = w := bitLength_eq_of_range _ w hw (by omega) (by omega)
+        simp [he, hbl]
+    | _ => rw [hm] at htm; cases htm
+theorem isIntrinsicWidth_ge {w : Nat} (h : isIntrinsicWidth w = true) : 32 ≤ w := by
+  unfold isIntrinsicWidth at h
+  simp at h
+  omega
+
+theorem countlOne_eq (c : Cfg) (w x : Nat) (hw : 1 ≤ w) (hx : x < 2^w) :
+    countlOne c w x = .ok (((w - bitLength (2^w - 1 - x) : Nat)) : Int) := by
+  unfold countlOne
+  split
+  · rename_i hc
+    have hw32 : 32 ≤ w := by
+      simp only [Bool.and_eq_true] at hc
+      exact isIntrinsicWidth_ge hc.2
+    rw [cNot_uT w x hw32 hx]
+    simp only [Res.bind_ok, Int.toNat_natCast]
+    have hle := bitLength_le (2^w - 1 - x) w (by omega)
+    by_cases h0 : 2^w - 1 - x = 0
+    · simp [h0, bitLength_zero]
+    · have hne : ((2^w - 1 - x : Nat) : Int) ≠ 0 := by omega
+      simp only [ne_eq, hne, not_false_eq_true, if_true, builtinClz, h0, if_false, blen_eq]
+      congr 1; omega
+  · exact countlOneGen_eq w hw (w+1) x hx (by omega)
+
+theorem countlOne_eq_spec (c : Cfg) (w x : Nat) (hw : 1 ≤ w) (hx : x < 2^w) :
+    countlOne c w x = .ok ((Spec.Bits.countlOne w x : Nat) : Int) :=
+  countlOne_eq c w x hw hx
+
+theorem sT_inRange (w : Nat) (v : Int) (h : (sT w).InRange v) : -(2^(w-1)) ≤ v ∧ v ≤ 2^(w-1) - 1 := by
+  unfold IntTy.InRange IntTy.lowest IntTy.max sT at h
+  simpa using h
+
+theorem countlRsb_eq (c : Cfg) (w : Nat) (hw : 1 ≤ w) (v : Int) (h : (sT w).InRange v) :
+    countlRsb c w v = .ok (Spec.Bits.countlRsb w v) := by
+  have hr := sT_inRange w v h
+  have h2 : (2:Int)^w = 2 * 2^(w-1) := two_pow_bits w hw
+  have hp := pow_pos' (w-1)
+  have hM : ((2^w : Nat) : Int) = 2^w := by push_cast; rfl
+  unfold countlRsb Spec.Bits.countlRsb valueBits
+  split
+  · simp [builtinClrsb, blen_eq]
+  · rw [lt_zero (sT w) v h, wrap_uT]
+    by_cases hneg : v < 0
+    · simp only [hneg, decide_true, if_true]
+      have hu : (v % 2^w).toNat = 2^w - 1 - (-v - 1).toNat := by
+        have e : v % 2^w = v + 2^w := by
+          have e1 : v = (v + 2^w) + (-1) * 2^w := by omega
+          rw [e1, Int.add_mul_emod_self_right, Int.emod_eq_of_lt (by omega) (by omega)]
+          omega
+        rw [e]
+        omega
+      have hlt : (-v - 1).toNat < 2^w := by
+        have : (((-v - 1).toNat : Nat) : Int) < ((2^w : Nat) : Int) := by rw [hM]; omega
+        exact_mod_cast this
+      rw [hu, countlOne_eq c w _ hw (by omega)]
+      have e3 : 2^w - 1 - (2^w - 1 - (-v - 1).toNat) = (-v - 1).toNat := by omega
+      have hle := bitLength_le _ w hlt
+      simp only [Res.bind_ok, Res.pure_eq, e3]
+      congr 1; omega
+    · simp only [hneg, decide_false, Bool.false_eq_true, if_false]
+      have hu : (v % 2^w).toNat = v.toNat := by
+        rw [Int.emod_eq_of_lt (by omega) (by omega)]
+      have hlt : v.toNat < 2^w := by
+        have : ((v.toNat : Nat) : Int) < ((2^w : Nat) : Int) := by rw [hM]; omega
+        exact_mod_cast this
+      rw [hu, countlZero_eq c w _ hlt]
+      simp only [Res.bind_ok, Res.pure_eq]
+      congr 1; omega
+
+theorem countlRb_signed (c : Cfg) (w : Nat) (hw : 1 ≤ w) (v : Int) (h : (sT w).InRange v) :
+    countlRb c (sT w) v = .ok (Spec.Bits.countlRsb w v) := by
+  unfold countlRb; simp only [sT, if_true]; exact countlRsb_eq c w hw v h
+
+theorem countlRb_unsigned (c : Cfg) (w x : Nat) (hx : x < 2^w) :
+    countlRb c (uT w) (x:Int) = .ok ((w:Int) - bitLength x) := by
+  unfold countlRb; simp only [uT, Bool.false_eq_true, if_false, Int.toNat_natCast]; exact countlZero_eq c w x hx
+
+theorem countrUsed_signed (c : Cfg) (w : Nat) (hw : 1 ≤ w) (v : Int) (h : (sT w).InRange v) :
+    countrUsed c (sT w) v = .ok ((valueBits v : Nat) : Int) := by
+  unfold countrUsed
+  rw [countlRb_signed c w hw v h]
+  simp only [Res.bind_ok, Res.pure_eq, Spec.Bits.countlRsb, IntTy.digits, sT, if_true]
+  congr 1; omega
+
+theorem countrUsed_unsigned (c : Cfg) (w x : Nat) (hx : x < 2^w) :
+    countrUsed c (uT w) (x:Int) = .ok ((bitLength x : Nat) : Int) := by
+  unfold countrUsed
+  rw [countlRb_unsigned c w x hx]
+  simp only [Res.bind_ok, Res.pure_eq, IntTy.digits, uT, Bool.false_eq_true, if_false]
+  congr 1; omega
+
+/-! ## popcount, ispow2 -/
+
+theorem mod2_cases (x : Nat) : x % 2 = 0 ∨ x % 2 = 1 := by omega
+
+theorem popcount_succ' : ∀ (w x : Nat), Spec.Bits.popcount (w+1) x = x % 2 + Spec.Bits.popcount w (x / 2)
+  | 0, x => by
+    simp only [Spec.Bits.popcount, Nat.testBit_zero]
+    cases mod2_cases x with
+    | inl h => simp [h]
+    | inr h => simp [h]
+  | w+1, x => by
+    rw [Spec.Bits.popcount, popcount_succ' w x, Nat.testBit_add_one]
+    conv => rhs; rw [Spec.Bits.popcount]
+    omega
+
+theorem ones_eq : ∀ (n x : Nat), ones n x = Spec.Bits.popcount n x
+  | 0, _ => rfl
+  | n+1, x => by rw [ones, popcount_succ', ones_eq n (x/2)]
+
+theorem ones_zero : ∀ (n : Nat), ones n 0 = 0
+  | 0 => rfl
+  | n+1 => by simp [ones, ones_zero n]
+
+theorem ones_le : ∀ (n x : Nat), ones n x ≤ n
+  | 0, _ => by simp [ones]
+  | n+1, x => by
+    rw [ones]; have := ones_le n (x/2); have := mod2_cases x; omega
+
+/-- clearing the lowest set bit removes exactly one 1 digit -/
+theorem ones_and_pred : ∀ (n x : Nat), x ≠ 0 → x < 2^n → ones n (x &&& (x - 1)) + 1 = ones n x
+  | 0, x, h0, hx => by simp at hx; omega
+  | n+1, x, h0, hx => by
+    rw [ones, ones]
+    have hmod : (x &&& (x - 1)) % 2 = (x % 2) &&& ((x - 1) % 2) := by
+      have := @Nat.and_mod_two_pow x (x - 1) 1
+      simpa using this
+    have hdiv : (x &&& (x - 1)) / 2 = (x / 2) &&& ((x - 1) / 2) := by
+      have := @Nat.and_div_two_pow x (x - 1) 1
+      simpa using this
+    rw [hmod, hdiv]
+    cases mod2_cases x with
+    | inr hodd =>
+      have e1 : (x - 1) % 2 = 0 := by omega
+      have e2 : (x - 1) / 2 = x / 2 := by omega
+      rw [hodd, e1, e2, Nat.and_self]
+      simp
+      omega
+    | inl heven =>
+      have e1 : (x - 1) % 2 = 1 := by omega
+      have e2 : (x - 1) / 2 = x / 2 - 1 := by omega
+      rw [heven, e1, e2]
+      have hx2 : x / 2 < 2^n := by rw [Nat.pow_succ] at hx; omega
+      have ih := ones_and_pred n (x / 2) (by omega) hx2
+      simp
+      omega
+
+/-- `x - 1` (the literal is an `int`) for `x ≥ 1`, in the promoted type -/
+theorem sub_one (T : IntTy) (x : Nat) (h : (x:Int) ≤ T.max) (h0 : x ≠ 0) :
+    cBin .sub (T, (x:Int)) (i32, 1) = .ok (promote T, ((x - 1 : Nat) : Int)) := by
+  have hb := promote_bits_ge T
+  have hm := max_promote_ge T
+  have hfit := le_max_promote T _ h
+  have h1 : (promote T).wrap 1 = 1 := wrap_nat_fits (promote T) (by omega) 1 (by simp; omega)
+  have e : ((x:Int) - 1) = ((x - 1 : Nat) : Int) := by omega
+  have hfit2 : ((x - 1 : Nat) : Int) ≤ (promote T).max := by omega
+  simp only [cBin, usualArith_i32]
+  rw [wrap_nat_fits (promote T) (by omega) x hfit, h1, e]
+  simp only [arith]
+  have hlow : (promote T).lowest ≤ 0 := by
+    unfold IntTy.lowest; split
+    · have := pow_pos' ((promote T).bits - 1); omega
+    · omega
+  by_cases hs : (promote T).signed = true
+  · simp only [hs, if_true]
+    have hin : (promote T).InRange ((x - 1 : Nat) : Int) := ⟨by omega, hfit2⟩
+    rw [if_pos hin]
+  · simp only [hs]
+    simp only [Bool.false_eq_true, if_false]
+    rw [wrap_nat_fits (promote T) (by omega) _ hfit2]
+
+/-- `x & (x - 1)` in the promoted type -/
+theorem and_pred (T : IntTy) (x : Nat) (h : (x:Int) ≤ T.max) (h0 : x ≠ 0) :
+    (cBin .sub (T, (x:Int)) (i32, 1) >>= fun d => cBin .band (T, (x:Int)) d)
+      = .ok (promote T, ((x &&& (x - 1) : Nat) : Int)) := by
+  have hb := promote_bits_ge T
+  rw [sub_one T x h h0]
+  simp only [Res.bind_ok]
+  have hfit := le_max_promote T _ h
+  exact cBin_band_nat T (promote T) (promote T) (usualArith_promote T) (by omega) x (x - 1) hfit (by omega)
+
+theorem popcountGen_eq (N : Nat) : ∀ (fuel : Nat) (T : IntTy) (x : Nat), (x:Int) ≤ T.max → x < 2^N → ones N x < fuel →
+    popcountGen T fuel x = .ok ((ones N x : Nat) : Int)
+  | 0, _, _, _, _, hf => by omega
+  | fuel+1, T, x, h, hx, hf => by
+    unfold popcountGen
+    by_cases h0 : x = 0
+    · subst h0
+      simp [ones_zero N]
+    · simp only [ne_eq, h0, not_false_eq_true, if_true]
+      have hap := and_pred T x h h0
+      simp only [bind, Res.bind] at hap
+      simp only [bind, Res.bind]
+      cases hd : cBin .sub (T, (x:Int)) (i32, 1) with
+      | ok d =>
+        rw [hd] at hap
+        simp only at hap
+        simp only
+        rw [hap]
+        simp only [Int.toNat_natCast]
+        have hk := ones_and_pred N x h0 hx
+        have hle : x &&& (x - 1) ≤ x := Nat.and_le_left
+        have ih := popcountGen_eq N fuel (promote T) (x &&& (x - 1))
+          (by have := le_max_promote T _ h; omega) (by omega) (by omega)
+        rw [ih]
+        simp only [pure]
+        congr 1; omega
+      | _ => rw [hd] at hap; cases hap
+theorem popcount_eq (c : Cfg) (w x : Nat) (hx : x < 2^w) :
+    popcount c w x = .ok ((Spec.Bits.popcount w x : Nat) : Int) := by
+  unfold popcount
+  split
+  · simp [builtinPopcount, ones_eq]
+  · rw [popcountGen_eq w (w+1) (uT w) x (le_uT_max w x hx) hx (by have := ones_le w x; omega), ones_eq]
+
+theorem two_pow_and_pred (k : Nat) : 2^k &&& (2^k - 1) = 0 := by
+  apply Nat.eq_of_testBit_eq
+  intro i
+  rw [Nat.testBit_and, Nat.testBit_two_pow, Nat.testBit_two_pow_sub_one, Nat.zero_testBit]
+  by_cases h : k = i
+  · subst h; simp
+  · simp [h]
+
+theorem and_pred_eq_zero_iff (x : Nat) (h0 : x ≠ 0) : x &&& (x - 1) = 0 ↔ x = 2 ^ Nat.log2 x := by
+  constructor
+  · intro h
+    have h1 := Nat.log2_self_le h0
+    have h2 := @Nat.lt_log2_self x
+    by_cases he : x = 2 ^ Nat.log2 x
+    · exact he
+    · have b1 := top_bit x (Nat.log2 x) h1 h2
+      have b2 := top_bit (x - 1) (Nat.log2 x) (by omega) (by omega)
+      have := congrArg (fun z => Nat.testBit z (Nat.log2 x)) h
+      simp [Nat.testBit_and, b1, b2] at this
+  · intro h
+    have := two_pow_and_pred (Nat.log2 x)
+    rw [← h] at this
+    exact this
+
+theorem ispow2_eq (w x : Nat) (hx : x < 2^w) : ispow2 w x = .ok (Spec.Bits.isPow2 x) := by
+  unfold ispow2 Spec.Bits.isPow2
+  by_cases h0 : x = 0
+  · simp [h0]
+  · simp only [ne_eq, h0, not_false_eq_true, if_true]
+    have hap := and_pred (uT w) x (le_uT_max w x hx) h0
+    simp only [bind, Res.bind] at hap
+    simp only [bind, Res.bind]
+    cases hd : cBin .sub (uT w, (x:Int)) (i32, 1) with
+    | ok d =>
+      rw [hd] at hap
+      simp only at hap
+      simp only
+      rw [hap]
+      simp only [pure]
+      congr 1
+      have hiff := and_pred_eq_zero_iff x h0
+      rw [Bool.eq_iff_iff]
+      simp only [beq_iff_eq, Bool.and_eq_true, bne_iff_ne, ne_eq]
+      constructor
+      · intro h; exact ⟨h0, hiff.1 (by exact_mod_cast h)⟩
+      · intro h; exact_mod_cast hiff.2 h.2
+    | _ => rw [hd] at hap; cases hap
+
+theorem run_le (p : Nat → Bool) : ∀ (n i : Nat), run p i n ≤ n
+  | 0, _ => Nat.le_refl _
+  | n+1, i => by
+    simp only [run]; split
+    · have := run_le p n (i+1); omega
+    · omega
+
+theorem valueBits_le (w : Nat) (hw : 1 ≤ w) (v : Int) (h : (sT w).InRange v) : valueBits v ≤ w - 1 := by
+  have hr := sT_inRange w v h
+  have hM : ((2^(w-1) : Nat) : Int) = 2^(w-1) := by push_cast; rfl
+  unfold valueBits
+  apply bitLength_le
+  have : (((if v < 0 then -v - 1 else v).toNat : Nat) : Int) < ((2^(w-1) : Nat) : Int) := by
+    rw [hM]; split <;> omega
+  exact_mod_cast this
+
 end Cnl.Bits
